@@ -4,7 +4,7 @@
 #   without it: the demonstration passes.
 # usage: seedverify.sh <seeded-dir>...     (scratch worktree: /tmp/wt_verify)
 export CARGO_NET_OFFLINE=true
-WT=/tmp/wt_verify
+WT=${SEEDVERIFY_WT:-/tmp/wt_verify}
 if [ ! -d $WT ]; then git -C /repo worktree add -f $WT HEAD >/dev/null 2>&1; fi
 for d in "$@"; do
   id=$(basename $d)
